@@ -9,6 +9,7 @@ import PandoraModel.Model.CrossCheck
 import PandoraModel.Model.PyVecIdx
 import PandoraModel.Generated.KernelsCrossCheck
 import PandoraModel.Properties.C07
+import PandoraModel.Properties.C07HalfEven
 import Mathlib.Tactic.Linarith
 import Mathlib.Tactic.Ring
 import Mathlib.Tactic.Tauto
@@ -297,29 +298,15 @@ def agreesOn (P : Params) (dL dR : List Val) (mask : List Nat) : Bool :=
     = .ok ((ccRow .ruleFix P dL dR mask).map (·.flag), (ccRow .ruleFix P dL dR mask).map (fun o => confFl o.conf)))
 
 /-
-  GOAL (full strength, NOT YET PROVED — kept visible):
-
-    theorem crossCheckRow_generated_eq (P : Params) (dL dR : List Val) (mask : List Nat)
-        (hm : mask.length = dL.length) (hr : dR.length = dL.length)      -- the maps of a dataset pair have one shape
-        (hu : ∀ f ∈ mask, f < 65536)                                      -- the validity mask is a uint16 array
-        (hn : dL.length ≤ 2 ^ 63) :                                       -- column indices are int64
-        crossCheckRow mask (embedRow dL) (embedRow dR) (.fin P.threshold) (arange P.dmin P.dmax)
-          = .ok ((ccRow .ruleFix P dL dR mask).map (·.flag),
-                 (ccRow .ruleFix P dL dR mask).map (fun o => confFl o.conf))
-
-  What is proved below instead (`…_partial` in the sense of BUILDING.md):
-  * `crossCheckRow_consistency_eq` (end of the file): stage 1 of the generated definition — everything up to `invalid_col`: the
-    confidence row and the ordered list of invalidated columns — equals the hand model FOR EVERY ROW, all 20 tests true;
-    stages 2 (witness search) and 3 (flag update; an attempt is kept out of the tree) are the missing part;
-  * the bridge lemmas the proof needs, for ALL lists: `gather_where`, `scatterSet_where`, `scatterSet_range`,
-    `getD_scatterSet_map`, `select_map`, `maskSet_map`, `zipWith_map_map`, `zipWith3_map`, `tileRows_len`, `tileCols_len`,
-    `gatherOk_where` (with them `simp only` brings every vector of the generated definition to the form `L.map f` over a
-    filtered list of columns; tried: the normal form is reached);
-  * `generated_eq_on_table`: the equality itself, by kernel evaluation, on a table of rows chosen so that each behaviour the
-    statement depends on is decided by at least one row.  It is re-proved against what the source says on every run.
-  Missing: the 42 shape / bounds / uint16 tests of the generated definition shown true from `hm hr hu hn`, and the pointwise
-  comparison of the normal form with `ccPixel .ruleFix` (membership in `invalid_col`, `castInt ∘ rint` on `Fl.ofVal`, the
-  count over the interval = `comp`).
+  MAIN THEOREM (end of the file, proved): `crossCheckRow_generated_eq` — for every `P`, `dL`, `dR`, `mask` with
+  `mask.length = dL.length`, `dR.length = dL.length` (the maps of a dataset pair have one shape), `∀ f ∈ mask, f < 65536` (uint16)
+  and `dL.length ≤ 2^63` (column indices are int64):
+      crossCheckRow mask (embedRow dL) (embedRow dR) (.fin P.threshold) (arange P.dmin P.dmax)
+        = .ok ((ccRow .ruleFix P dL dR mask).map (·.flag), (ccRow .ruleFix P dL dR mask).map (fun o => confFl o.conf))
+  by composing the three generated stages: `crossCheckRow_consistency_eq` (stage 1), `crossCheckRow_witness_eq` (stage 2),
+  `crossCheckRow_flags_eq` (stage 3), then `flag_pointwise` / `conf_pointwise` against `ccPixel .ruleFix`.  Transfer of the
+  specification: `generated_row_clauses`, `generated_never_both`, `generated_invalid_untouched`.
+  `generated_eq_on_table` (kernel evaluation on six discriminating rows) is kept as an independent instance check.
 -/
 
 /-- rows chosen to separate the behaviours the statement depends on: distance equal to the threshold (kept), just above
@@ -426,5 +413,351 @@ theorem crossCheckRow_consistency_eq (thr : ℚ) (dL dR : List Val) (m : Nat →
       | (apply gatherOk_where; simp [embedRow, hr]; done)
       | (simp [sameLen, scatterOk, gatherOk, inRange, len, embedRow, hr, ile, ilt]; done)
       | (simp [sameLen, scatterOk, gatherOk, inRange, len, embedRow, hr, ile, ilt]; intros; omega)
+
+/-! ## Stage 3: the flag update -/
+
+theorem int_mul_eq (a b : Int) : Int.mul a b = a * b := rfl
+
+theorem gather_range_cast {α : Type} (d : α) (n : Nat) (g : Nat → α) (IC : List Nat) (hIC : ∀ c ∈ IC, c < n) :
+    gather d ((List.range n).map g) (IC.map (fun (c : Nat) => (c : Int))) = IC.map g := by
+  rw [gather_map]
+  apply List.map_congr_left
+  intro c hc
+  rw [getAt_map_range, if_pos (hIC c hc)]
+
+theorem gatherOk_range_cast {α : Type} (n : Nat) (g : Nat → α) (IC : List Nat) (hIC : ∀ c ∈ IC, c < n) :
+    gatherOk ((List.range n).map g) (IC.map (fun (c : Nat) => (c : Int))) = true := by
+  simp only [gatherOk, List.all_map, List.all_eq_true, Function.comp, inRange, len, List.length_map, List.length_range,
+    Bool.and_eq_true, decide_eq_true_eq]
+  intro c hc
+  exact ⟨Int.natCast_nonneg c, by exact_mod_cast hIC c hc⟩
+
+theorem sameLen_map {α β γ : Type} (L : List α) (a : α → β) (b : α → γ) : sameLen (L.map a) (L.map b) = true := by
+  simp [sameLen]
+
+theorem all_map_id {α : Type} (L : List α) (p : α → Bool) (h : ∀ x ∈ L, p x = true) : (L.map p).all id = true := by
+  simp only [List.all_map, List.all_eq_true]
+  intro x hx
+  exact h x hx
+
+theorem castU16_512 (k : Nat) : castU16 (Int.mul 512 (k : Int)) = 512 * k := by
+  show ((512 : Int) * (k : Int)).toNat = 512 * k
+  omega
+theorem castU16_256 (k : Nat) : castU16 (Int.mul 256 (k : Int)) = 256 * k := by
+  show ((256 : Int) * (k : Int)).toNat = 256 * k
+  omega
+
+theorem castU16_512' (k : Nat) : castU16 (512 * (k : Int)) = 512 * k := castU16_512 k
+theorem castU16_256' (k : Nat) : castU16 (256 * (k : Int)) = 256 * k := castU16_256 k
+
+/-- **the flag update, for every row**: stage 3 adds OCCLUSION, then MISMATCH·k, and takes OCCLUSION·k back at the given columns;
+    none of its 15 tests fails when the columns are in the row, their flag words leave room for bits 8 and 9, and k ≤ 1 -/
+theorem crossCheckRow_flags_eq (n : Nat) (m : Nat → Nat) (conf : List Fl) (IC : List Nat) (k : Nat → Nat)
+    (hIC : ∀ c ∈ IC, c < n ∧ m c + 768 < 65536) (hk : ∀ c, k c ≤ 1) :
+    crossCheckRow_s3 ((List.range n).map m) conf (IC.map (fun (c : Nat) => (c : Int))) (IC.map (fun c => ((k c : Nat) : Int)))
+      = .ok ((List.range n).map (fun c => if c ∈ IC then m c + 256 + 512 * k c - 256 * k c else m c), conf) := by
+  have hI : ∀ c ∈ IC, c < n := fun c hc => (hIC c hc).1
+  simp only [crossCheckRow_s3, mapR, mapL, zip2, List.map_map, Function.comp_def, scatterOk,
+    gather_range_cast _ n _ IC hI, gatherOk_range_cast n _ IC hI, zipWith_map_map, scatterSet_range, sameLen_map,
+    Bool.true_and, Bool.and_true]
+  rw [if_pos]
+  · congr 1
+    refine Prod.ext ?_ rfl
+    apply List.map_congr_left
+    intro c _
+    by_cases hin : c ∈ IC
+    · simp only [hin, if_true, castU16_512, castU16_256, Nat.add_eq, Nat.sub_eq]
+    · simp only [hin, if_false]
+  · simp only [Bool.and_eq_true]
+    refine ⟨⟨⟨⟨?_, ?_⟩, ?_⟩, ?_⟩, ?_⟩ <;> apply all_map_id <;> intro x hx <;> (obtain ⟨h1, h2⟩ := hIC x hx) <;>
+      (have h3 := hk x) <;>
+      simp only [hx, if_true, castU16_512, castU16_256, castU16_512', castU16_256', u16AddOk, u16SubOk, u16Ok, int_mul_eq, Nat.add_eq,
+        decide_eq_true_eq, Bool.and_eq_true] <;> omega
+
+/-! ## Stage 2: the witness search -/
+
+instance : Inhabited Fl := ⟨.nan⟩
+
+theorem all_id_map_true {α : Type} (L : List α) : (L.map (fun _ => true)).all id = true := by
+  simp
+
+theorem length_whereIdx_map {α : Type} [Inhabited α] (L : List α) (p : α → Bool) :
+    (whereIdx (L.map p)).length = (L.filter p).length := by
+  have := congrArg List.length (gather_where () L (fun _ => ()) p)
+  simpa [gather] using this
+
+theorem sameShape_map {α β γ δ : Type} (L : List α) (R : List β) (a : α → β → γ) (b : α → β → δ) :
+    sameShape (L.map fun x => R.map (a x)) (L.map fun x => R.map (b x)) = true := by
+  simp [sameShape, zipWith_map_map]
+
+theorem gather2Ok_map {α β γ : Type} (L : List α) (R : List β) (f : α → β → γ) (p : α → β → Bool) :
+    gather2Ok (L.map fun x => R.map (f x)) (L.map fun x => whereIdx (R.map (p x))) = true := by
+  simp only [gather2Ok, zipWith_map_map, List.length_map, beq_self_eq_true, Bool.true_and]
+  have : ∀ x, gatherOk (R.map (f x)) (whereIdx (R.map (p x))) = true := fun x => gatherOk_where _ _ (by simp)
+  simp [this]
+
+theorem scatter2Ok_map {α β γ δ : Type} [Inhabited β] (L : List α) (R : List β) (a : α → β → γ) (p : α → β → Bool)
+    (g : α → β → δ) :
+    scatter2Ok (L.map fun x => R.map (a x)) (L.map fun x => whereIdx (R.map (p x)))
+      (L.map fun x => (R.filter (p x)).map (g x)) = true := by
+  simp only [scatter2Ok, zipWith3_map, List.length_map, beq_self_eq_true, Bool.true_and]
+  have : ∀ x, scatterOk (R.map (a x)) (whereIdx (R.map (p x))) ((R.filter (p x)).map (g x)) = true := by
+    intro x
+    simp only [scatterOk, sameLen, length_whereIdx_map, List.length_map, beq_self_eq_true, Bool.and_true]
+    exact gatherOk_where _ _ (by simp)
+  simp [this]
+
+/-! ### scalars of the witness grid -/
+
+theorem index_add (d : Int) (c : Nat) : Fl.add (ofInt d) (ofInt (c : Int)) = Fl.fin (((d + (c : Int) : Int)) : ℚ) := by
+  simp [ofInt, Fl.add]
+
+theorem le_fin0 (s : Int) : Fl.le (.fin 0) (.fin (s : ℚ)) = decide (0 ≤ s) := by
+  simp only [Fl.le, Fl.lt, Fl.eq]
+  rw [Bool.eq_iff_iff]
+  simp only [Bool.or_eq_true, decide_eq_true_eq]
+  constructor
+  · rintro (h | h)
+    · exact_mod_cast le_of_lt h
+    · exact_mod_cast le_of_eq h
+  · intro h
+    rcases lt_or_eq_of_le h with h1 | h1
+    · left; exact_mod_cast h1
+    · right; exact_mod_cast h1
+
+theorem lt_finn (s : Int) (n : Nat) : Fl.lt (.fin (s : ℚ)) (ofInt (n : Int)) = decide (s < (n : Int)) := by
+  simp only [Fl.lt, ofInt]
+  rw [Bool.eq_iff_iff]
+  simp only [decide_eq_true_eq]
+  exact_mod_cast Iff.rfl
+
+theorem castInt_fin (s : Int) : castInt (.fin (s : ℚ)) = s := truncQ_intCast s
+
+theorem match_eq (n : Nat) (dR : List Val) (c : Nat) (d : Int) (b : Bool)
+    (hb : b = true ↔ (0 ≤ d + (c : Int) ∧ d + (c : Int) < (n : Int))) :
+    Fl.eq (PyVecIdx.rint (if b = true then Fl.ofVal (dR.getD (d + (c : Int)).toNat Val.nan) else Fl.pinf))
+      (ofInt (Int.mul (-1) d)) = matchAt n dR c d := by
+  unfold matchAt dispRightAt
+  rw [Int.add_comm (c : Int) d]
+  by_cases h : 0 ≤ d + (c : Int) ∧ d + (c : Int) < (n : Int)
+  · rw [if_pos (hb.mpr h), if_pos h]
+    cases dR.getD (d + (c : Int)).toNat Val.nan with
+    | nan => rfl
+    | num q =>
+      simp only [Fl.ofVal, PyVecIdx.rint, Fl.eq, ofInt, int_mul_eq]
+      rw [Bool.eq_iff_iff]
+      simp only [decide_eq_true_eq, beq_iff_eq]
+      constructor
+      · intro h1
+        have h2 : rintQ q = -1 * d := by exact_mod_cast h1
+        show rintQ q = -d
+        omega
+      · intro h1
+        have h2 : rintQ q = -d := h1
+        rw [h2]; push_cast; ring
+  · have hb' : ¬ (b = true) := fun e => h (hb.mp e)
+    rw [if_neg hb', if_neg h]
+    rfl
+
+theorem countTrue_map {α : Type} (L : List α) (f : α → Bool) : countTrue (L.map f) = ((L.filter f).length : Int) := by
+  unfold countTrue
+  congr 1
+  induction L with
+  | nil => rfl
+  | cons x L ih => by_cases h : f x <;> simp [List.filter_cons, h, ih]
+
+theorem comp_eq (n : Nat) (dR : List Val) (c : Nat) (R : List Int) (f : Int → Bool) (hf : ∀ d, f d = matchAt n dR c d) :
+    (if ilt 1 (countTrue (R.map f)) = true then (1 : Int) else countTrue (R.map f)) = ((comp n dR c R : Nat) : Int) := by
+  have : f = matchAt n dR c := funext hf
+  subst this
+  rw [countTrue_map]
+  unfold comp
+  simp only [ilt]
+  by_cases h : (R.filter (matchAt n dR c)).length > 1
+  · have h' : (1 : Int) < ((R.filter (matchAt n dR c)).length : Int) := by exact_mod_cast h
+    simp [h, h']
+  · have h' : ¬ (1 : Int) < ((R.filter (matchAt n dR c)).length : Int) := by exact_mod_cast h
+    simp [h, h']
+
+/-- **the witness search, for every row**: stage 2 returns, for each invalidated column, the hand model's `comp` (the number of
+    disparities `d` of the range with `rint(dR(c + d)) = −d`, inf outside the image, clipped to 1); none of its 7 tests fails -/
+theorem crossCheckRow_witness_eq (n : Nat) (dR : List Val) (hr : dR.length = n) (R : List Int) (conf : List Fl) (IC : List Nat) :
+    crossCheckRow_s2 (embedRow dR) R (n : Int) conf (IC.map (fun (c : Nat) => (c : Int)))
+      = .ok (conf, IC.map (fun (c : Nat) => (c : Int)), IC.map (fun c => ((comp n dR c R : Nat) : Int))) := by
+  simp only [crossCheckRow_s2, tileRows_len, tileCols_len, mmap, mzip, fullLike, where2, gather2, rgather, scatter2, rowCounts,
+    mapR, mapL, List.map_map, Function.comp_def, zipWith_map_map, zipWith3_map, gather_where, gather_map, scatterSet_where,
+    maskSet_map, getAt_embedRow, sameShape_map, gather2Ok_map, scatter2Ok_map, sameLen_map, Bool.true_and, Bool.and_true,
+    index_add, le_fin0, lt_finn, castInt_fin]
+  rw [if_pos]
+  · congr 1
+    refine Prod.ext rfl (Prod.ext rfl ?_)
+    apply List.map_congr_left
+    intro c _
+    apply comp_eq
+    intro d
+    refine match_eq n dR c d _ ?_
+    simp only [Bool.and_eq_true, decide_eq_true_eq] <;> tauto
+  · simp only [rgatherOk, List.all_map, List.all_eq_true, gatherOk, Function.comp, List.mem_filter, inRange, len,
+      Bool.and_eq_true, decide_eq_true_eq]
+    intro c _ d hd
+    have : (embedRow dR).length = n := by simp [embedRow, hr]
+    rw [this]
+    tauto
+
+/-! ## The whole row -/
+
+theorem mem_ICcols (thr : ℚ) (m : Nat → Nat) (dL dR : List Val) (c : Nat) :
+    c ∈ ICcols thr m dL dR ↔
+      c < dL.length ∧ validC m c = true ∧ (inB dL c = false ∨ (distE dL dR c).gt thr = true) := by
+  simp only [ICcols, List.mem_append, List.mem_filter, List.mem_range, Bool.and_eq_true, Bool.not_eq_true']
+  cases inB dL c <;> simp <;> tauto
+
+theorem room_for_bits (f : Nat) (hf : f < 65536) (hv : Flags.isInvalid f = false) : f + 768 < 65536 := by
+  obtain ⟨h8, h9⟩ := C07.valid_bits_clear f hv
+  simp only [bitAt] at h8 h9
+  omega
+
+theorem flag_pointwise (P : Params) (dL dR : List Val) (m : Nat → Nat) (c : Nat) (hc : c < dL.length) :
+    (if c ∈ ICcols P.threshold m dL dR then
+        m c + 256 + 512 * comp dL.length dR c (arange P.dmin P.dmax) - 256 * comp dL.length dR c (arange P.dmin P.dmax)
+      else m c) = (ccPixel .ruleFix P dL.length dL dR c (m c)).flag := by
+  obtain ⟨qo, hq⟩ : ∃ qo, colRight c (dL.getD c Val.nan) = qo := ⟨_, rfl⟩
+  obtain ⟨b, hb⟩ : ∃ b, Flags.isInvalid (m c) = b := ⟨_, rfl⟩
+  simp only [mem_ICcols, hc, true_and, validC, inB, qOf, distE, ccPixel, ccInside, ccOutside, Flags.occlusion, Flags.mismatch,
+    hq, hb]
+  cases b <;> rcases qo with _ | q <;> simp [insideRight]
+  all_goals (try (split_ifs <;> simp_all))
+  all_goals (try omega)
+
+theorem conf_pointwise (P : Params) (dL dR : List Val) (m : Nat → Nat) (c : Nat) :
+    confModel m dL dR c = confFl (ccPixel .ruleFix P dL.length dL dR c (m c)).conf := by
+  obtain ⟨qo, hq⟩ : ∃ qo, colRight c (dL.getD c Val.nan) = qo := ⟨_, rfl⟩
+  obtain ⟨b, hb⟩ : ∃ b, Flags.isInvalid (m c) = b := ⟨_, rfl⟩
+  simp only [confModel, validC, inB, qOf, distE, ccPixel, ccInside, ccOutside, hq, hb]
+  have hnan : confFl Conf.nan = Fl.nan := rfl
+  cases b <;> rcases qo with _ | q <;> simp [insideRight, hnan]
+  all_goals (try (split_ifs <;> simp_all [hnan, confFl_toConf]))
+
+/-- **the row body regenerated from the source equals the hand model, for every row**: every row length up to 2^63 (column
+    indices are int64), every left / right disparity row of that length (NaN included), every uint16 flag row, every threshold
+    and every disparity interval — and none of the 42 shape / bounds / uint16 tests fails -/
+theorem crossCheckRow_generated_eq (P : Params) (dL dR : List Val) (mask : List Nat)
+    (hm : mask.length = dL.length) (hr : dR.length = dL.length) (hu : ∀ f ∈ mask, f < 65536)
+    (hn : dL.length ≤ 2 ^ 63) :
+    crossCheckRow mask (embedRow dL) (embedRow dR) (.fin P.threshold) (arange P.dmin P.dmax)
+      = .ok ((ccRow .ruleFix P dL dR mask).map (·.flag),
+             (ccRow .ruleFix P dL dR mask).map (fun o => confFl o.conf)) := by
+  have e : mask = (List.range dL.length).map (fun c => mask.getD c 0) := by
+    rw [← hm]; exact eq_map_range 0 mask
+  have hmu : ∀ c, c < dL.length → mask.getD c 0 < 65536 := by
+    intro c hc
+    have hc' : c < mask.length := by omega
+    apply hu
+    simp [List.getD_eq_getElem?_getD, hc']
+  have h1 := crossCheckRow_consistency_eq P.threshold dL dR (fun c => mask.getD c 0) hr hn
+  rw [← e] at h1
+  have h2 := crossCheckRow_witness_eq dL.length dR hr (arange P.dmin P.dmax)
+    ((List.range dL.length).map (confModel (fun c => mask.getD c 0) dL dR))
+    (ICcols P.threshold (fun c => mask.getD c 0) dL dR)
+  have h3 := crossCheckRow_flags_eq dL.length (fun c => mask.getD c 0)
+    ((List.range dL.length).map (confModel (fun c => mask.getD c 0) dL dR))
+    (ICcols P.threshold (fun c => mask.getD c 0) dL dR) (fun c => comp dL.length dR c (arange P.dmin P.dmax))
+    (by
+      intro c hc
+      rw [mem_ICcols] at hc
+      refine ⟨hc.1, room_for_bits _ (hmu c hc.1) ?_⟩
+      simpa [validC] using hc.2.1)
+    (by
+      intro c
+      rcases C07.comp_cases dL.length dR c (arange P.dmin P.dmax) with h | h <;> omega)
+  rw [← e] at h3
+  unfold crossCheckRow
+  rw [h1]
+  dsimp only
+  rw [h2]
+  dsimp only
+  rw [h3]
+  simp only [ccRow, List.map_map, Function.comp_def]
+  congr 1
+  refine Prod.ext ?_ ?_
+  · apply List.map_congr_left
+    intro c hc
+    exact flag_pointwise P dL dR (fun c => mask.getD c 0) c (List.mem_range.mp hc)
+  · apply List.map_congr_left
+    intro c hc
+    exact conf_pointwise P dL dR (fun c => mask.getD c 0) c
+
+
+/-! ## Transfer of the specification to the generated definition -/
+
+theorem getD_map_range {α : Type} (d : α) (n : Nat) (g : Nat → α) (c : Nat) :
+    ((List.range n).map g).getD c d = if c < n then g c else d := by
+  rw [← getAt_natCast, getAt_map_range]
+
+theorem getD_ccRow (P : Params) (dL dR : List Val) (mask : List Nat) (c : Nat) (hc : c < dL.length) (d : PixOut) :
+    (ccRow .ruleFix P dL dR mask).getD c d = ccPixel .ruleFix P dL.length dL dR c (mask.getD c 0) := by
+  simp only [ccRow]
+  rw [getD_map_range, if_pos hc]
+
+/-- **every clause of the statement holds of what the generated row function returns** (both readings of `round`): the
+    function returns the flag words and band values of a row `out` of per-pixel outputs, and at every column every clause of
+    `clausesPix` — `kept_iff_consistent`, `mismatch_iff_witness`, `occlusion_otherwise`, `never_both`, `only_bits_8_9`,
+    `conf_band_value`, `invalid_not_reexamined` — and of the half-even `clausesPixEven` is true of `out[c]` -/
+theorem generated_row_clauses (P : Params) (dL dR : List Val) (mask : List Nat)
+    (hm : mask.length = dL.length) (hr : dR.length = dL.length) (hu : ∀ f ∈ mask, f < 65536)
+    (hn : dL.length ≤ 2 ^ 63) :
+    ∃ out : List PixOut,
+      crossCheckRow mask (embedRow dL) (embedRow dR) (.fin P.threshold) (arange P.dmin P.dmax)
+        = .ok (out.map (·.flag), out.map (fun o => confFl o.conf)) ∧
+      out.length = dL.length ∧
+      ∀ c, c < dL.length →
+        (∀ cl ∈ clausesPix P false dL dR c (mask.getD c 0) (out.getD c ⟨0, .nan⟩), cl.2 = true) ∧
+        (∀ cl ∈ clausesPixEven P false dL dR c (mask.getD c 0) (out.getD c ⟨0, .nan⟩), cl.2 = true) := by
+  refine ⟨ccRow .ruleFix P dL dR mask, crossCheckRow_generated_eq P dL dR mask hm hr hu hn, by simp [ccRow], ?_⟩
+  intro c hc
+  rw [getD_ccRow P dL dR mask c hc]
+  constructor
+  · have := C07.ccPixel_ruleFix_spec P dL.length dL dR c (mask.getD c 0) hr
+    simpa [allOK, List.all_eq_true] using this
+  · have := C07.ccPixel_ruleFix_specEven P dL.length dL dR c (mask.getD c 0) hr
+    simpa [allOK, List.all_eq_true] using this
+
+/-- **never_both / only_bits_8_9 on the returned flag row**: at a previously valid pixel the generated function never sets both
+    bit 8 and bit 9, and changes no other bit -/
+theorem generated_never_both (P : Params) (dL dR : List Val) (mask flags : List Nat) (band : List Fl)
+    (hm : mask.length = dL.length) (hr : dR.length = dL.length) (hu : ∀ f ∈ mask, f < 65536) (hn : dL.length ≤ 2 ^ 63)
+    (h : crossCheckRow mask (embedRow dL) (embedRow dR) (.fin P.threshold) (arange P.dmin P.dmax) = .ok (flags, band))
+    (c : Nat) (hc : c < dL.length) (hv : Flags.isInvalid (mask.getD c 0) = false) :
+    ¬(bitAt (flags.getD c 0) 8 = 1 ∧ bitAt (flags.getD c 0) 9 = 1)
+      ∧ sameExcept89 (flags.getD c 0) (mask.getD c 0) = true := by
+  rw [crossCheckRow_generated_eq P dL dR mask hm hr hu hn] at h
+  have hf : flags = (ccRow .ruleFix P dL dR mask).map (·.flag) := by
+    injection h with h; exact (Prod.mk.inj h).1.symm
+  have : flags.getD c 0 = (ccPixel .ruleFix P dL.length dL dR c (mask.getD c 0)).flag := by
+    rw [hf]
+    simp only [ccRow, List.map_map]
+    rw [getD_map_range, if_pos hc]; rfl
+  rw [this]
+  exact C07.ccPixel_never_both (V := .ruleFix) P dL.length dL dR c (mask.getD c 0) hv
+
+/-- **invalid_not_reexamined on the returned flag row** -/
+theorem generated_invalid_untouched (P : Params) (dL dR : List Val) (mask flags : List Nat) (band : List Fl)
+    (hm : mask.length = dL.length) (hr : dR.length = dL.length) (hu : ∀ f ∈ mask, f < 65536) (hn : dL.length ≤ 2 ^ 63)
+    (h : crossCheckRow mask (embedRow dL) (embedRow dR) (.fin P.threshold) (arange P.dmin P.dmax) = .ok (flags, band))
+    (c : Nat) (hc : c < dL.length) (hv : Flags.isInvalid (mask.getD c 0) = true) :
+    flags.getD c 0 = mask.getD c 0 := by
+  rw [crossCheckRow_generated_eq P dL dR mask hm hr hu hn] at h
+  have hf : flags = (ccRow .ruleFix P dL dR mask).map (·.flag) := by
+    injection h with h; exact (Prod.mk.inj h).1.symm
+  rw [hf]
+  simp only [ccRow, List.map_map]
+  rw [getD_map_range, if_pos hc]
+  simp only [Function.comp, ccPixel, hv, if_true]
+
+/-- non-vacuity: a row satisfying the hypotheses (the five-pixel row of the table) -/
+example : ([0, 0, 0, 1, 0] : List Nat).length = ([Val.num 0, .num 1, .num (-1), .num 0, .nan] : List Val).length
+    ∧ (∀ f ∈ ([0, 0, 0, 1, 0] : List Nat), f < 65536)
+    ∧ ([Val.num 0, .num 1, .num (-1), .num 0, .nan] : List Val).length ≤ 2 ^ 63 := by
+  refine ⟨rfl, by decide, by norm_num⟩
 
 end Pandora.C07Kernels
